@@ -32,7 +32,8 @@ def gen_fields(rng, allow_empty=False, names=None):
     return ','.join('%s=%s' % (hx(n), gen_val(rng, allow_empty)) for n in names) if names else '-'
 
 def gen_case(rng):
-    cfg = ['json', 't%d' % rng.randrange(2), 'l%d' % rng.randrange(2), 'i0', 'n0', 'f0', 'L0', 's0', 'c%d' % rng.randrange(2), 'S%d' % rng.randrange(2), 'F%d' % rng.randrange(2)]
+    # thread names / ids: the serving thread is named `main`; with U1 the history runs on an unnamed spawned thread
+    cfg = ['json', 't%d' % rng.randrange(2), 'l%d' % rng.randrange(2), 'i%d' % rng.choice([0, 0, 1]), 'n%d' % rng.choice([0, 0, 1]), 'U%d' % rng.randrange(2), 'f0', 'L0', 's0', 'c%d' % rng.randrange(2), 'S%d' % rng.randrange(2), 'F%d' % rng.randrange(2)]
     ops = []; nsp = 0; stack = []; declared = {}
     for _ in range(rng.choice([3, 7, 14])):
         r = rng.random()
@@ -86,6 +87,12 @@ def judge(case, out):
             except Dup as e: return 'bad duplicate-keys ' + str(e)[:60]
             except Exception as e: return 'bad unparsable ' + str(e)[:60]
             if not isinstance(j, dict): return 'bad not-an-object'
+            flags = cfg.split()
+            named = 'U1' not in flags
+            if 'i1' in flags and not (isinstance(j.get('threadId'), str) and j['threadId'].startswith('ThreadId(')): return 'bad threadId-missing'
+            if 'i0' in flags and 'threadId' in j: return 'bad threadId-unasked'
+            if 'n1' in flags and (named or 'i0' in flags) and not isinstance(j.get('threadName'), str): return 'bad threadName-missing'
+            if 'n0' in flags and 'threadName' in j: return 'bad threadName-unasked'
             if t[0] == 'ev' and t[3] != '-':
                 holder = j if flatten else j.get('fields')
                 if not isinstance(holder, dict): return 'bad fields-missing'
@@ -98,7 +105,27 @@ def judge(case, out):
                         return 'bad field-value %r: %r != %r' % (name, holder[name], exp)
     return 'ok'
 
-def canon(out): return out
+_TH = [re.compile(r',"threadName":"[^"]*"'), re.compile(r',"threadId":"ThreadId\(\d+\)"'),
+       re.compile(r'(?<=\{)"threadName":"[^"]*",'), re.compile(r'(?<=\{)"threadId":"ThreadId\(\d+\)",'),
+       re.compile(r'(?<=\{)"threadName":"[^"]*"(?=\})'), re.compile(r'(?<=\{)"threadId":"ThreadId\(\d+\)"(?=\})')]
+def canon(out):
+    """the model does not render the thread entries (their values are the run's thread ids): they are removed before the
+    byte comparison; the judge sees them (presence, uniqueness of keys)"""
+    if 'thread' not in out and '746872656164' not in out: return out
+    res = []
+    for tok in out.split(' '):
+        parts = []
+        for x in tok.split(','):
+            if ':w' in x:
+                head, h = x.split(':w', 1)
+                try:
+                    text = bytes.fromhex(h).decode('utf-8')
+                    for rx in _TH: text = rx.sub('', text)
+                    x = head + ':w' + text.encode('utf-8').hex()
+                except Exception: pass
+            parts.append(x)
+        res.append(','.join(parts))
+    return ' '.join(res)
 
 def nontrivial(case, out):
     return ' rc ' in case and any(h in case for h in (hx('"'), hx('\\'), hx('\n'), hx(' '))) and ':w' in out
@@ -107,7 +134,7 @@ def classify(stream, case, out):
     cfg = case.split(' ;; ')[0].split()
     return 'flatten=%s span=%s list=%s records=%s' % (cfg[-1][1], cfg[-3][1], cfg[-2][1], 'y' if ' rc ' in case else 'n')
 
-_s = Stream('json', 'h_fmt', gen=gen, nontrivial=nontrivial)
+_s = Stream('json', 'h_fmt', gen=gen, nontrivial=nontrivial, canon=canon)
 _s.py_judge = judge
 
 PROPERTY = {
